@@ -92,16 +92,17 @@ def _alarm(*a):
     raise Hang()
 
 
-def guarded(f):
-    """-> ("ok", value) | ("err", class name, message)"""
+def guarded(f, secs=None):
+    """-> ("ok", value) | ("err", class name, message)   secs: a short budget for calls that are history only (never judged)"""
     L = lib()
     from harness import timeouts as _T
     old = signal.signal(signal.SIGALRM, _alarm)
-    signal.alarm(int(_T.limit()))
+    signal.alarm(int(secs or _T.limit()))
     try:
         return ("ok", f())
     except Hang:
-        _T.saw_hang()
+        if secs is None:
+            _T.saw_hang()
         return ("err", "hang", "")
     except L["JaqalError"] as e:
         return ("err", "JaqalError", str(e)[:200])
@@ -1063,8 +1064,10 @@ def eval_case(case):
                     for s in m.body.statements:
                         L["get_used_qubit_indices"](s)
                 L["get_used_qubit_indices"](circ.body.statements[0])
-            if guarded(poke)[0] != "ok":
+            pr = guarded(poke, secs=2)
+            if pr[0] != "ok":
                 failed_before += 1
+                bump("poke:" + pr[1])
             continue
         if op == "used":
             def f():
